@@ -1,18 +1,24 @@
 #!/usr/bin/env python3
-"""exit 0 if the crash in the log has a frame inside repository (non-harness) code."""
+"""exit 0 if the crash in the log has a frame inside repository (non-harness) code
+in the crashing goroutine."""
 import re, sys
 txt = open(sys.argv[1], errors="replace").read()
 i = min([x for x in (txt.find("\npanic: "), txt.find("\nfatal error: ")) if x >= 0] or [-1])
 if i < 0:
     i = 0
 tail = txt[i:]
-# first goroutine block after the crash banner
 m = re.search(r"\ngoroutine \d+ \[", tail)
 blk = tail[m.start():] if m else tail
 blk = blk.split("\n\n")[0]
-for line in blk.splitlines():
-    line = line.strip()
-    if line.startswith("github.com/MixinNetwork/mixin/") and "verifkit" not in line and "verifgen" not in line \
-            and "verifledger" not in line and ".TestVerif" not in line and ".verif" not in line and ".Verif" not in line:
-        sys.exit(0)
+lines = blk.splitlines()
+for k in range(len(lines) - 1):
+    fn, loc = lines[k].strip(), lines[k + 1].strip()
+    if not fn.startswith("github.com/MixinNetwork/mixin/"):
+        continue
+    if not re.match(r"/\S+\.go:\d+", loc):
+        continue
+    path = loc.split(":")[0]
+    if "zz_verif" in path or "/verifkit/" in path or "/verifgen/" in path or "/verifledger/" in path or path.endswith("_test.go"):
+        continue
+    sys.exit(0)
 sys.exit(1)
